@@ -3,5 +3,5 @@ CONSTANTS
   MaxStr = 5
   AsIsD10 = FALSE
   AsIsD12 = FALSE
-INVARIANTS RoundTrip EmitCase
+INVARIANTS RoundTrip VarsPrinted EmitCase
 CHECK_DEADLOCK FALSE
